@@ -122,6 +122,25 @@ impl Ledger {
 		}
 	}
 
+	/// Number of update_add_htlc / update_fee messages `side` has put on the wire that the other
+	/// side had not yet acknowledged with a revoke_and_ack: updates that "cross" with whatever the
+	/// other side sends at the same time.
+	pub fn unacked_adds_or_fees(&self, side: usize) -> usize {
+		let acked = self.sides[1 - side].raa_secrets.len() as u64;
+		let is_add = |k: &UpdKind| matches!(k, UpdKind::Add { .. } | UpdKind::Fee { .. });
+		self.sides[side].updates.iter().filter(|u| is_add(&u.kind) && u.cs_index > acked).count()
+			+ self.sides[side].pending.iter().filter(|k| is_add(k)).count()
+	}
+
+	/// Number of update_fulfill_htlc messages `side` has sent that the other side has not yet
+	/// acknowledged with a revoke_and_ack.
+	pub fn unacked_fulfills(&self, side: usize) -> usize {
+		let acked = self.sides[1 - side].raa_secrets.len() as u64;
+		let is_f = |k: &UpdKind| matches!(k, UpdKind::Fulfill { .. });
+		self.sides[side].updates.iter().filter(|u| is_f(&u.kind) && u.cs_index > acked).count()
+			+ self.sides[side].pending.iter().filter(|k| is_f(k)).count()
+	}
+
 	/// On disconnection updates not covered by a commitment_signed are forgotten by both peers.
 	pub fn disconnect(&mut self) {
 		self.sides[0].pending.clear();
